@@ -261,11 +261,19 @@ func checkReturnedSlicesFresh(c *Ctx, p *Program, rule string, fn *ssa.Function)
 
 // rootsOfSlice is rootsOf, additionally looking through append(dst, ...) to dst.
 func rootsOfSlice(v ssa.Value) []Root {
+	return rootsOfSliceRec(v, map[ssa.Value]bool{})
+}
+
+func rootsOfSliceRec(v ssa.Value, seen map[ssa.Value]bool) []Root {
+	if seen[v] {
+		return nil
+	}
+	seen[v] = true
 	var out []Root
 	for _, r := range rootsOf(v) {
 		if r.Kind == "call" && r.Call != nil {
 			if b, ok := r.Call.Call.Value.(*ssa.Builtin); ok && b.Name() == "append" && len(r.Call.Call.Args) > 0 {
-				out = append(out, rootsOfSlice(r.Call.Call.Args[0])...)
+				out = append(out, rootsOfSliceRec(r.Call.Call.Args[0], seen)...)
 				continue
 			}
 		}
